@@ -9,7 +9,7 @@ from dulwich.repo import Repo
 GIT_ENV = dict(os.environ, GIT_CONFIG_NOSYSTEM="1", HOME="/nonexistent", GIT_CONFIG_GLOBAL="/dev/null")
 
 
-def build_objects(seed, ncommits):
+def build_objects(seed, ncommits, inrepo_gitlinks=False):
     rng = random.Random(seed)
     blobs = [Blob.from_string(b"blob %d %d\n" % (seed, i)) for i in range(6)]
     objs, commits, reach_roots = list(blobs), [], []
@@ -23,6 +23,10 @@ def build_objects(seed, ncommits):
             t.add(b"sub", 0o040000, rng.choice(trees).id)
         if rng.random() < 0.15:
             t.add(b"module", 0o160000, hashlib.sha1(b"elsewhere %d" % i).hexdigest().encode())   # gitlink: not an object of this repository
+        elif inrepo_gitlinks and commits and rng.random() < 0.3:
+            # a gitlink that happens to name a commit kept in this very repository (a library branch pinned as a submodule):
+            # still no edge of the object graph
+            t.add(b"pinned", 0o160000, rng.choice(commits).id)
         trees.append(t)
         deps[t.id] = [e.sha for e in t.iteritems() if e.mode != 0o160000]
         c = Commit()
